@@ -25,8 +25,9 @@ SCOPE = {"quick": "keys over {null,0,1,2} (float/NaN; str/None, two-key and Seri
                   "3 canonical slice spellings (plain, negative, None)} x 8 operation families (10 reductions + spec; 7 transforms; 4 cumulative; 6 rolling/shift/diff with (window,min_periods) in {(1,None),(2,1),(2,None),(3,1)}; "
                   "4 EMA forms; apply/median/quantile/index_by_groups; crosstab/value_counts/agg/ratio/density/subset_ratio; the masked row-selection kernels) x value classes float(with nulls)/int/datetime/timedelta/bool rotated; "
                   "chunked keys: int/float keys over {0,1,2}, n<=3, every split into <=3 Arrow chunks + lowered threshold (1), every subset, reductions+transforms always and one row-aligned family per key sequence; "
+                  "5 designed 4-5-row chunked key sequences that start with a descent (no sorted-prefix piece: the caller's chunks are the group-key chunks) x 5 layouts x every subset; "
                   "EVERY slice (start, stop in {None} u [-n-1, n+1]) on chunked keys for n<=3 (n=4 over {0,1} with 3 layouts); positions with repeats/negatives/unsorted of length<=2 for n<=3 on contiguous, Arrow-chunked and threshold-chunked keys; "
-                  "2 designed 1_000_000-row cases with the real threshold; seeded random cases up to 24 rows",
+                  "3 designed 1_000_000-row cases with the real threshold (slice with a negative start, boolean, positions); seeded random cases up to 24 rows",
          "thorough": "as quick with n<=4 for the contiguous and chunked operation streams, every slice for n<=4 over {0,1,2} with every split into <=3 chunks, random cases up to 64 rows"}
 RULE = "a case = (keys, key kind, key representation/chunk layout, value class, value-null pattern, operation family with its parameters, one row selection with the list of mask spellings that select it); distinct = distinct canonical JSON; non-trivial = a selection that drops at least one row of an input with >= 2 rows"
 ASSUMPTIONS = ["numpy boolean/slice/fancy indexing of the INPUT arrays builds the filtered reference inputs as documented", "pandas Series/Index construction; pyarrow chunked_array construction",
@@ -49,6 +50,8 @@ ALL_KINDS = ("bool", "series", "slice", "pos")
 ACCEPTS_OP = {"subset_ratio": ("bool", "series")}      # subset_mask & global_mask: boolean only
 ACCEPTS = {"red": ALL_KINDS, "tr": ALL_KINDS, "cred": ALL_KINDS, "ctr": ALL_KINDS, "slc": ALL_KINDS, "pos": ALL_KINDS, "misc": ALL_KINDS, "cum": ("bool", "series"), "roll": ("bool", "series"), "ema": ("bool", "series"),
            "grp": ("bool", "series"), "kern": ("bool",)}
+# reductions on CHUNKED keys are split into three operation groups (case["g"]) so that one process JIT-compiles reduce_array_pair/_group_by_reduce for 2-3 reducers only
+OPGROUP = {0: {"size", "count", "sum", "mean", "var", "size(transform)", "count(transform)", "sum(transform)"}, 1: {"min", "max", "min(transform)"}, 2: {"first", "last", "last(transform)"}}
 IDX0 = 10        # Series inputs carry the index 10, 11, ... so that positional and label-based access differ
 
 
@@ -120,8 +123,9 @@ def _subsets(n):
 
 
 # ----------------------------------------------------------------------------- case streams
-def _case(keys, kkind, keyrep, vkind, nullpat, fam, masks, sort=True, blocks=None, params=None):
+def _case(keys, kkind, keyrep, vkind, nullpat, fam, masks, sort=True, blocks=None, params=None, g=None):
     c = {"keys": list(keys), "kkind": kkind, "keyrep": keyrep, "vkind": vkind, "nullpat": list(nullpat), "fam": fam, "masks": masks, "sort": sort}
+    if g is not None: c["g"] = g
     if blocks is not None: c["blocks"] = blocks
     if params is not None: c["params"] = params
     return c
@@ -170,7 +174,21 @@ def _chunked_ops_stream(N, big):
                     vkind = vks[j % len(vks)]; pat = _nullpat(vkind, n, j)
                     for sel in _subsets(n):
                         masks = mask_spellings(n, sel); masks = [m for m in masks if m[0] != "slice"] + [m for m in masks if m[0] == "slice"][:1]     # every slice spelling: see the slice stream
-                        yield _case(keys, "int" if j % 2 else "float", keyrep, vkind, pat, "c" + fam if fam in ("red", "tr") else fam, masks, sort=(j % 3 != 0), blocks=blocks, params=_params(fam, j))
+                        for g in ((0, 1, 2) if fam in ("red", "tr") else (None,)):
+                            yield _case(keys, "int" if j % 2 else "float", keyrep, vkind, pat, "c" + fam if fam in ("red", "tr") else fam, masks, sort=(j % 3 != 0), blocks=blocks, params=_params(fam, j), g=g)
+
+
+def _chunked_desc_stream():
+    """designed: chunked keys that START with a descent and have >= 4 rows - the only way to get NO sorted-prefix piece (cutoff <= n/4), i.e. group-key chunks and pointers that are exactly the caller's chunks"""
+    j = 0
+    for keys in ((1, 0, 1, 0), (2, 1, 0, 1), (1, 0, 0, 2), (1, 0, 2, 1), (2, 0, 1, 0, 2)):
+        n = len(keys)
+        for keyrep, blocks in [("pa", [2, n - 2]), ("pa", [1, n - 1]), ("pa", [2, 1, n - 3]), ("pa", [n - 1, 1]), ("thr", None)]:
+            for fam in ("cred", "ctr"):
+                j += 1
+                for sel in _subsets(n):
+                    masks = mask_spellings(n, sel); masks = [m for m in masks if m[0] != "slice"] + [m for m in masks if m[0] == "slice"][:1]
+                    for g in (0, 1, 2): yield _case(keys, "int" if j % 2 else "float", keyrep, "float", _nullpat("float", n, j), fam, masks, sort=(j % 3 != 0), blocks=blocks, g=g)
 
 
 def _slice_stream(tier):
@@ -184,7 +202,7 @@ def _slice_stream(tier):
             for keyrep, blocks in lay:
                 j += 1
                 for sel in ranges:
-                    yield _case(keys, "int" if j % 2 else "float", keyrep, "float", _nullpat("float", n, j), "slc", mask_spellings(n, sel, ("slice",), slices="all"), sort=(j % 3 != 0), blocks=blocks)
+                    yield _case(keys, "int" if j % 2 else "float", keyrep, "float", _nullpat("float", n, j), "slc", mask_spellings(n, sel, ("slice",), slices="all"), sort=(j % 3 != 0), blocks=blocks, g=0)
 
 
 def _open_stream():
@@ -196,7 +214,7 @@ def _open_stream():
             for keyrep, blocks in [("np", None), ("pa", [1, n - 1] if n > 1 else [1]), ("thr", None)]:
                 j += 1
                 for m in masks:
-                    yield _case(keys, "float", keyrep, "float", _nullpat("float", n, j), "pos", [list(m)], sort=True, blocks=blocks)
+                    for g in (0, 2): yield _case(keys, "float", keyrep, "float", _nullpat("float", n, j), "pos", [list(m)], sort=True, blocks=blocks, g=g)
 
 
 def cases(tier, seed):
@@ -209,16 +227,15 @@ def cases(tier, seed):
                _ops_stream(N, [None, 0, 1], "str", "np", ("red", "tr", "cum", "grp"), sym=sym),
                _ops_stream(N, [None, 0, 1, 2], "two", "np", ("red", "tr", "roll", "misc"), sym=sym),
                _ops_stream(N, [None, 0, 1], "float", "series", ("red", "tr", "cum", "roll", "ema", "grp"), sym=sym),
-               _open_stream()]
-    return C.roundrobin(*streams, weights=(2, 3, 3, 2, 1, 1, 1, 1))
+               _open_stream(), _chunked_desc_stream()]
+    return C.roundrobin(*streams, weights=(2, 3, 3, 2, 1, 1, 1, 1, 1))
 
 
 def extra_cases(tier, seed):
     """size boundary: the REAL chunked factorisation (1_000_000 rows, threshold untouched); keys are generated from a formula, not stored"""
     out = []
-    for fam, masks in (("red", [["slice", [-300001, None, None]], ["slice", [250000, 750001, None]], ["bool", "i%3!=1"], ["pos", "range(5, n, 7)"]]),
-                       ("tr", [["bool", "i%3!=1"], ["slice", [250001, None, None]]])):
-        for m in masks: out.append({"big": 1_000_000, "keyform": "(i*7919 % 1000) % 13", "kkind": "int", "keyrep": "np", "vkind": "float", "fam": fam, "masks": [m], "sort": True, "only": ["size", "sum", "first", "last", "sum(transform)", "min(transform)"]})
+    for fam, masks in (("slc", [["slice", [-300001, None, None]], ["bool", "i%3!=1"], ["pos", "range(5, n, 7)"]]),):
+        for m in masks: out.append({"big": 1_000_000, "keyform": "(i*7919 % 1000) % 13", "kkind": "int", "keyrep": "np", "vkind": "float", "fam": fam, "masks": [m], "sort": True, "g": 0, "only": ["size", "sum", "sum(transform)"]})
     return out
 
 
@@ -236,7 +253,9 @@ def random_case(rnd, tier):
     else: sel = [i for i in range(n) if rnd.random() < 0.6]
     masks = mask_spellings(n, sel)
     if _is_range(sel): masks = masks[:3] + rnd.sample(slice_spellings(n, sel), min(3, len(slice_spellings(n, sel))))
-    return _case(keys, kkind, keyrep, vkind, pat, fam, masks, sort=rnd.random() < 0.7, blocks=blocks, params=_params(fam, rnd.randrange(8)))
+    g = None
+    if chunked and fam in ("red", "tr"): fam = "c" + fam; g = rnd.randrange(3)
+    return _case(keys, kkind, keyrep, vkind, pat, fam, masks, sort=rnd.random() < 0.7, blocks=blocks, params=_params(fam, rnd.randrange(8)), g=g)
 
 
 def nontrivial(case):
@@ -258,7 +277,7 @@ def _ops(fam, vkind, params):
         if op == "size": return lambda gb, x: gb.size(mask=x.m, **kw)
         return lambda gb, x: getattr(gb, op)(x.v, mask=x.m, **kw)
     if fam in ("red", "cred", "slc", "pos"):
-        names = {"red": RED, "cred": ["size", "count", "sum", "mean", "min", "max", "first", "last", "var"], "slc": ["size", "sum", "last"], "pos": ["size", "count", "sum", "min", "first", "last"]}[fam]
+        names = {"red": RED, "cred": ["size", "count", "sum", "mean", "min", "max", "first", "last", "var"], "slc": ["size", "count", "sum"], "pos": ["size", "count", "sum", "first", "last"]}[fam]
         for op in names:
             if op == "sum" and vkind == "datetime": continue
             if op in ("var", "std") and (temporal or vkind == "bool"): continue
@@ -468,6 +487,7 @@ def check_case(sess, case):
     ops = _ops(fam, vkind, case.get("params")); calls = 0
     if "op" in case: ops = {o: f for o, f in ops.items() if o == case["op"]}
     if "only" in case: ops = {o: f for o, f in ops.items() if o in case["only"]}
+    if case.get("g") is not None: ops = {o: f for o, f in ops.items() if o in OPGROUP[case["g"]]}
     # ---- reference: the same operation on the filtered inputs (same kind of key container, no mask)
     pick = lambda a: None if a is None else ([x[sela] for x in a] if isinstance(a, list) else a[sela])
     kf = pick(k); ref = {}; rrep, rblocks = _ref_layout(case, sel, n); ref_gb = None
@@ -476,8 +496,11 @@ def check_case(sess, case):
         for op, (fn, kind) in ops.items():
             calls += 1
             try:
-                if ref_gb is None or chunked: ref_gb, kkf = _build_gb(kf, rrep, rblocks, case["sort"], len(sel), None)      # chunked keys are unified in place by some operations: fresh object per call
-                ref[op] = fn(ref_gb, _X(kkf, pick(v), None, pick(times), pick(col), pick(sub), None))
+                if chunked and kind != "red": g_, kkf = _build_gb(kf, rrep, rblocks, case["sort"], len(sel), None)      # chunked keys are unified in place by the non-reducing operations: fresh object for each of those
+                else:
+                    if ref_gb is None: ref_gb = _build_gb(kf, rrep, rblocks, case["sort"], len(sel), None)
+                    g_, kkf = ref_gb
+                ref[op] = fn(g_, _X(kkf, pick(v), None, pick(times), pick(col), pick(sub), None))
             except Exception as ex: ref[op] = _Raised(ex)
     has_null_key = (not big) and any(x is None for x in case["keys"])
     for mi, mask in enumerate(masks):
@@ -496,9 +519,12 @@ def check_case(sess, case):
             calls += 1
             try:
                 with contextlib.redirect_stdout(io.StringIO()):
-                    if gb is None or chunked or case["keyrep"] == "series": gb, kk = _build_gb(k, case["keyrep"], case.get("blocks"), case["sort"], n, idx)
+                    if case["keyrep"] == "series" or (chunked and kind != "red"): g_, kk = _build_gb(k, case["keyrep"], case.get("blocks"), case["sort"], n, idx)
+                    else:
+                        if gb is None: gb = _build_gb(k, case["keyrep"], case.get("blocks"), case["sort"], n, idx)
+                        g_, kk = gb
                     x = _X(kk, _rep(v, idx), m, times, _rep(col, idx) if idx is not None else col, sub, idx)
-                    got = fn(gb, x)
+                    got = fn(g_, x)
             except Exception as ex:
                 if not accepted: sess.evals["c05.kind_rejected"] += 1; continue      # the operation does not accept this mask kind and says so
                 if isinstance(ref[op], _Raised): continue                              # the operation is not defined on the filtered data either
@@ -552,14 +578,14 @@ def check_case(sess, case):
 # _group_by_reduce / _cumulative_reduce / reduce_array_pair take the reducer as a first-class function: numba cannot reuse their on-disk cache, so every
 # process re-compiles every (key dtype, value dtype, reducer, indexer) specialisation it meets (0.3-3 s each, ~150 s for all of them). The generic
 # index % nprocs sharding makes all 16 processes compile everything; here a case goes to a process of its JIT class, round-robin inside the class.
-_CLASS_WEIGHTS = (("Rf", 3), ("Rx", 3), ("Rc", 6), ("Cu", 1), ("Ot", 3))
+_CLASS_WEIGHTS = (("Rf", 3), ("Rx", 3), ("Rc0", 3), ("Rc1", 1), ("Rc2", 2), ("Cu", 1), ("Ot", 3))
 
 
 def _class(case):
     fam = case["fam"]
     if fam == "cum": return "Cu"
     if fam in ("roll", "ema", "grp", "kern"): return "Ot"
-    if case["keyrep"] in ("pa", "thr") or "big" in case: return "Rc"
+    if case["keyrep"] in ("pa", "thr") or "big" in case: return f"Rc{case.get('g') or 0}"
     return "Rf" if case["vkind"] == "float" else "Rx"
 
 
